@@ -1,3 +1,4 @@
+import MpsProps.Anchors.C10
 import MpsProofs.ZKSigma
 import MpsProofs.ZKModel
 import MpsGen.ZK
